@@ -26,25 +26,25 @@ CHECKS = {
  "C16": dict(
    engine="simcheck (shuttle runtime + own seeded scheduler)",
    technique="deterministic simulation: real dot_f64 under a seeded/recorded thread scheduler and a simulated CPU count; seeded search over schedules x configurations; Miri many-seeds cross-check (thorough)",
-   text="Seeded exploration of (length, CPU count, data, schedule): the shipped dot_f64 runs as shuttle tasks whose every scheduling decision comes from VERIF_SEED and is recorded; every (len 0..=200) x (CPUs 1..=16) pair is visited in every tier, plus lengths to 5000 and CPU counts to 200; oracles are exact-integer bit identity (-0.0 is not +0.0), a reassociation error bound, basis probes (each index covered exactly once), bit-identity across schedules and repeated calls, no panic/deadlock/hang, operands intact, no memory of earlier calls (another product before under a larger CPU count, an in-place change after, the self-product v.v), a concurrent second caller, every association of the rounded products for lengths 2..4; injected faults: stalled workers, refused thread creation (through std::thread::Builder), a CPU count that alternates between consultations. A band of million-element vectors is included. Thorough tier adds the unhooked crate on real threads under restricted CPU affinity and under Miri many-seeds. Sampling of schedules, not proof.",
+   text="Seeded exploration of (length, CPU count, data, schedule): the shipped dot_f64 runs as shuttle tasks whose every scheduling decision comes from VERIF_SEED and is recorded; every (len 0..=200) x (CPUs 1..=16) pair is visited in every tier, plus lengths to 5000 and CPU counts to 200; oracles are exact-integer bit identity (-0.0 is not +0.0), a reassociation error bound, basis probes (each index covered exactly once), bit-identity across schedules and repeated calls, no panic/deadlock/hang, operands intact, no memory of earlier calls (another product before under a larger CPU count, an in-place change after, the self-product v.v), a concurrent second caller, every association of the rounded products for lengths 2..4; injected faults: stalled workers, refused thread creation (through std::thread::Builder), a CPU count that alternates between consultations. A band of million-element vectors is included. Thorough tier adds the unhooked crate on real threads under restricted CPU affinity and under Miri many-seeds. Sampling of schedules, not proof. Since rounds 7-11 of independent seeded changes: data with NaN/Inf/zero entries (class of the result must equal the sequential one), exponents over +-480 and all-subnormal products, lengths k*2^j-1, k*2^j, k*2^j+1 up to 4*2^20, a failing call (operands of different length) earlier in the execution; second configuration: one exact-data pass over the length grid under 3 and 5 real CPUs (taskset) for code that left the seam block. A run that blocks only because a second caller is simulated as a coroutine (a real lock outside the seams) is classified as a harness limit and the pass repeated without that feature; failures that no fresh process reproduces trigger a repeat of the pass with one worker thread.",
    design="§4.1",
    note="Trusted: shuttle's model of std::thread::scope/spawn/join; the CPU-count override standing in for num_cpus::get (cross-checked by Miri with real std threads and -Zmiri-num-cpus in the thorough tier); the Dot2 reference and the gamma(n) bound for general floats; a wall-clock watchdog (120 s per run, a time budget per pass) as the only real clock (it never influences a choice; when it fires the report says so)."),
  "C17": dict(
    engine="simcheck (scripted-callback simulator with fault script)",
    technique="deterministic simulation of the user function / user Jacobian as a scripted, recording, fault-injecting peer of the Newton iteration protocol; seeded search over scripts, fault keyings (evaluation index, region) and parameters; reference-model Newton step; restart-composition and replay oracles; shrinking",
-   text="All six real solve/solve_jacobian methods run against a simulated user function that answers from a script (polynomials in product form, exp/sin equations, strictly diagonally dominant systems of dimension 1..6; root-free, non-differentiable and constant scripts), injects NaN/+-Inf/1e300 at a chosen evaluation index, user-Jacobian call or region, counts and hashes every call and aborts runaway solvers. Oracles: returns (no panic; runaway evaluation counts stopped by the callback, silent loops by a wall-clock watchdog), evaluations <= 2*E*max_iter+2 (the property names no constant) and at most one evaluation with max_iter=0, parameters() untouched; 2..12 further calls on the SAME object bit-identical in result and call history; the same object reconfigured through its setters (iterations, guess, delta, tolerance) answers like a fresh one; another object solving another problem on the same thread first changes nothing; failure payload is the last iterate (restart composition, one-step reference model), no Ok on scripts whose stopping criterion cannot be met, in-basin success within O(tol) of the root, Ok-implies-near-a-root anywhere. Seeded sampling, not proof; the in-basin/anywhere halves are numerical sampling that simulation merely hosts.",
+   text="All six real solve/solve_jacobian methods run against a simulated user function that answers from a script (polynomials in product form, exp/sin equations, strictly diagonally dominant systems of dimension 1..6; root-free, non-differentiable and constant scripts), injects NaN/+-Inf/1e300 at a chosen evaluation index, user-Jacobian call or region, counts and hashes every call and aborts runaway solvers. Oracles: returns (no panic; runaway evaluation counts stopped by the callback, silent loops by a wall-clock watchdog), evaluations <= 2*E*max_iter+2 (the property names no constant) and at most one evaluation with max_iter=0, parameters() untouched; 2..12 further calls on the SAME object bit-identical in result and call history; the same object reconfigured through its setters (iterations, guess, delta, tolerance) answers like a fresh one; another object solving another problem on the same thread first changes nothing; failure payload is the last iterate (restart composition, one-step reference model), no Ok on scripts whose stopping criterion cannot be met, in-basin success within O(tol) of the root, Ok-implies-near-a-root anywhere. Seeded sampling, not proof; the in-basin/anywhere halves are numerical sampling that simulation merely hosts. Since rounds 9-11: systems scaled down by powers of two (overall or per equation), polynomial scales 1e-30..1e30, in-basin guesses with exactly zero coordinates, callbacks that run a Newton solve of their own (re-entrancy), an earlier object whose callback panics part-way (caught).",
    design="§4.3",
    note="Trusted: per-iteration evaluation cost E of the documented scheme (3 scalar, n+2 finite-difference systems, 1+1 user Jacobian), doubled, as the meaning of 'bounded work'; basin radii derived in DESIGN.md §4.3; harness-side reference arithmetic (complex helpers, Gaussian elimination); under injected faults no Ok/Err expectation."),
  "C18": dict(
    engine="simcheck (scripted-callback simulator)",
    technique="deterministic simulation of the user map as a scripted, recording, possibly faulty peer: stencil classification, table/affine/smooth environments, injected NaN/Inf/panic; seeded search with shrinking",
-   text="The real Mat64::jacobian / Matrix::<Cmplx>::jacobian_cmplx run against a simulated user function that classifies every evaluation point against the forward stencil, answers from a script (affine-dyadic: J == M bit for bit; arbitrary table on the stencil, NaN off it; smooth with known derivative: O(delta) bound) and injects NaN/Inf at chosen stencil points or a panic at a chosen evaluation. All 36 shapes 1..6 x 1..6 (m<n, m=n, m>n), real and complex, are enumerated in every tier; the rest is seeded sampling. 40 % of the cases run a call history first (same routine/same point/other map; a Newton solve converging onto the point), 10 % have the map call the routine re-entrantly. Oracles: shape, entries, fault containment (exactly the entries fed a non-finite value are non-finite; a loud refusal is accepted), panic propagation, loud refusal of a map that returns too few components. Repeated under 2- and 4-CPU affinity.",
+   text="The real Mat64::jacobian / Matrix::<Cmplx>::jacobian_cmplx run against a simulated user function that classifies every evaluation point against the forward stencil, answers from a script (affine-dyadic: J == M bit for bit; arbitrary table on the stencil, NaN off it; smooth with known derivative: O(delta) bound) and injects NaN/Inf at chosen stencil points or a panic at a chosen evaluation. All 36 shapes 1..6 x 1..6 (m<n, m=n, m>n), real and complex, are enumerated in every tier; the rest is seeded sampling. 40 % of the cases run a call history first (same routine/same point/other map; a Newton solve converging onto the point), 10 % have the map call the routine re-entrantly. Oracles: shape, entries, fault containment (exactly the entries fed a non-finite value are non-finite; a loud refusal is accepted), panic propagation, loud refusal of a map that returns too few components. Repeated under 2- and 4-CPU affinity. Since rounds 9-11: one run in 2000 has a shape up to 320 x 320; half of the scripted callback panics are followed by the same call again at the same point, and that retry is judged.",
    design="§4.4",
    note="Trusted: the stencil classification tolerance (bitwise on dyadic data, 2 ulp otherwise); rounding tolerances on non-dyadic data; the callback is the only channel through which the routine sees the map. Order/multiplicity of evaluations is not constrained here."),
  "C19": dict(
    engine="simcheck (simulated disk with fault plan + reference mesh model)",
    technique="deterministic simulation: histories of mesh operations against a reference model, with the file system behind Mesh1D::output/read replaced by a seeded fault-injecting in-memory disk (short/EINTR/failed/zero writes, short/EINTR/failed reads, refused create/open); seeded search with shrinking",
-   text="Real Mesh1D/Mesh2D code under seeded histories of 5..40 operations (set/get/Index/IndexMut, interpolation at nodes / mid-cell / interior points, 1-D and 2-D trapezium with exact and closed-form oracles, assign/apply, cross-sections that join the pool of live meshes, a sibling 2-D mesh of equal extents swapped in and out, var_as_matrix, output and read into fresh/shorter/longer/live meshes; grids up to 2^13 from the origin; interpolation points as close as 1e-6 to a node), mirrored by a reference model and compared through every access path after every step. output/read run their real formatting, write_all, read_to_string and parsing against a simulated disk that injects transient faults (which must be absorbed: full round trip required) and hard faults (after which the call may refuse by panicking; flagged are acknowledged-but-wrong files, reads that return wrong data, a changed writer). Repeated under 2- and 3-CPU affinity. Seeded sampling of histories and fault placements, not proof.",
+   text="Real Mesh1D/Mesh2D code under seeded histories of 5..40 operations (set/get/Index/IndexMut, interpolation at nodes / mid-cell / interior points, 1-D and 2-D trapezium with exact and closed-form oracles, assign/apply, cross-sections that join the pool of live meshes, a sibling 2-D mesh of equal extents swapped in and out, var_as_matrix, output and read into fresh/shorter/longer/live meshes; grids up to 2^13 from the origin; interpolation points as close as 1e-6 to a node), mirrored by a reference model and compared through every access path after every step. output/read run their real formatting, write_all, read_to_string and parsing against a simulated disk that injects transient faults (which must be absorbed: full round trip required) and hard faults (after which the call may refuse by panicking; flagged are acknowledged-but-wrong files, reads that return wrong data, a changed writer). Repeated under 2- and 3-CPU affinity. Seeded sampling of histories and fault placements, not proof. Since rounds 9-11: stretched grids (cell widths 1/8..12288 side by side), offsets up to 2^30, 1-D meshes of 100-300 nodes, query points 1e-6*2^j from a node and nodes at zero asked for with the other sign, twelve-digit integer values, apply() with a callback that panics at its k-th node (model re-read from the mesh), and a file seam that also covers rename / remove_file / exists / copy / OpenOptions.",
    design="§4.2",
    note="Trusted: the in-memory disk's model of create(truncate)/write/read/close; that short transfers and EINTR are legal for successful calls; tolerances for printed precision and rounded quadrature/interpolation; crash/torn-write/bit-flip faults are deliberately not injected (the property claims no durability)."),
 }
